@@ -1,21 +1,24 @@
 #!/bin/bash
-# Runs every mutant against the quick check(s) of its property; writes selftest/results.tsv.
-# Mutant file names start with the property id in lower case (c03_...). Always reverts /repo.
+# Runs every mutant against the quick check(s) of its property in a scratch worktree
+# (VERIF_REPO); writes selftest/results.tsv. Mutant file names start with the property id.
 set -u
 OUT=/verif/selftest/results.tsv
+WT=/tmp/mutant-wt
 : > $OUT
-cd /repo || exit 2
-git diff --quiet || { echo "repo dirty" >&2; exit 2; }
+if [ ! -d $WT ]; then git -C /repo worktree add -q --detach $WT HEAD || exit 2; cp /repo/Cargo.lock $WT/; fi
+cd $WT || exit 2
+git checkout -q --detach $(git -C /repo rev-parse HEAD)
 for m in /verif/selftest/mutants/*.diff; do
   name=$(basename $m .diff)
   id=$(echo ${name%%_*} | tr a-z A-Z)
+  git checkout -q -- .
   git apply $m 2>/dev/null || { echo -e "$name\t$id\tNOAPPLY\t" >> $OUT; continue; }
   t0=$(date +%s)
-  out=$(/verif/check $id --tier quick 2>&1); rc=$?
+  out=$(VERIF_REPO=$WT /verif/check $id --tier quick 2>&1); rc=$?
   t1=$(date +%s)
   sigs=$(echo "$out" | grep -A1 "^VIOLATION" | grep -E "^  [A-Za-z0-9]" | sed 's/^  //' | cut -d: -f1 | sort -u | tr '\n' ' ')
   bound=$(echo "$out" | grep -oE "bound Some\([0-9]+\)" | head -1)
   echo -e "$name\t$id\t$rc\t$bound\t$((t1-t0))s\t$sigs" >> $OUT
-  git checkout -q -- .
 done
+git checkout -q -- .
 echo done >> $OUT
